@@ -42,7 +42,7 @@ CLASSIFIERS = {}
 # operation carries every operation since the last one of these
 CONTEXT_RESETS = {"au.reset", "cl.reset", "ep.reset", "pr.reset", "sd.reset", "sg.reset", "sv.reset", "svc.reset"}
 
-ALL_EXTRACTORS = ["Basic", "Message", "Conversion", "Session", "Service", "SigGrammar", "Value", "Reader", "Encoding", "GenReaders", "Endpoint", "Stream", "Client", "Queues", "Auth", "Calls", "Signals", "Property", "Directory", "Mailbox", "IdlGrammar", "GenTypes", "IdlPackage", "Locks"]
+ALL_EXTRACTORS = ["Basic", "Message", "Conversion", "Session", "Service", "SigGrammar", "Value", "Reader", "Encoding", "GenReaders", "Endpoint", "Stream", "Client", "Queues", "Auth", "Calls", "Signals", "Property", "Directory", "Mailbox", "IdlGrammar", "GenTypes", "IdlPackage", "Locks", "LockOrder"]
 
 
 def lean_string_list(path, name):
@@ -90,8 +90,8 @@ PROPS = {
     "C19": {
         "level": "proof",
         "race": True,
-        "extract": ["Session", "Queues", "Client", "Locks"],
-        "extra_modules": ["QiVerif.Props.C19Refresh", "QiVerif.Tie.ClientCall", "QiVerif.Props.Locks", "QiVerif.Tie.Locks"],
+        "extract": ["Session", "Queues", "Client", "Locks", "LockOrder"],
+        "extra_modules": ["QiVerif.Props.C19Refresh", "QiVerif.Tie.ClientCall", "QiVerif.Props.Locks", "QiVerif.Tie.Locks", "QiVerif.Props.LockOrder", "QiVerif.Tie.LockOrder"],
         "model_ops": c19_model_ops,
         "rule": "stress: N in {2,8,32} (thorough: up to 64) goroutines request proxies for 5 services behind 3 endpoints "
                 "(accept delayed 1-4 ms so that dial windows overlap) from one fresh session per round, call through each "
@@ -110,8 +110,8 @@ PROPS = {
     "C16": {
         "level": "proof",
         "race": True,
-        "extract": ["Service", "Signals", "Locks"],
-        "extra_modules": ["QiVerif.Props.C16Add", "QiVerif.Props.C16Mailbox", "QiVerif.Props.C16Client", "QiVerif.Tie.ClientService", "QiVerif.Tie.UpdateLoop", "QiVerif.Props.Locks", "QiVerif.Tie.Locks"],
+        "extract": ["Service", "Signals", "Locks", "LockOrder"],
+        "extra_modules": ["QiVerif.Props.C16Add", "QiVerif.Props.C16Mailbox", "QiVerif.Props.C16Client", "QiVerif.Tie.ClientService", "QiVerif.Tie.UpdateLoop", "QiVerif.Props.Locks", "QiVerif.Tie.Locks", "QiVerif.Props.LockOrder", "QiVerif.Tie.LockOrder"],
         "rule": "random histories (8-32 operations each) of Add / Remove (live, already removed, unknown id) / remote call "
                 "/ remote terminate (own id, 0, wrong id) / subscribe (one connection per subscriber) on a real service "
                 "hosted by a real server, followed by state snapshots (invocation and OnTerminate counters per object "
@@ -207,8 +207,8 @@ PROPS = {
     "C17": {
         "level": "proof",
         "race": True,
-        "extra_modules": ["QiVerif.Props.Locks", "QiVerif.Tie.Locks"],
-        "extract": ["Endpoint", "Locks"],
+        "extra_modules": ["QiVerif.Props.Locks", "QiVerif.Tie.Locks", "QiVerif.Props.LockOrder", "QiVerif.Tie.LockOrder"],
+        "extract": ["Endpoint", "Locks", "LockOrder"],
         "rule": "exact mode: random sequences (8-38 ops) on a real endpoint over an in-memory connection: MakeHandler "
                 "(filters = residue classes of the action id, some removing themselves on a given message id, queue "
                 "capacity 1-3), RemoveHandler (live, removed, unknown ids), incoming events and calls (each followed by a "
@@ -226,8 +226,8 @@ PROPS = {
     "C10": {
         "level": "proof",
         "race": True,
-        "extra_modules": ["QiVerif.Props.Locks", "QiVerif.Tie.Locks"],
-        "extract": ["Endpoint", "Message", "Stream", "Locks"],
+        "extra_modules": ["QiVerif.Props.Locks", "QiVerif.Tie.Locks", "QiVerif.Props.LockOrder", "QiVerif.Tie.LockOrder"],
+        "extract": ["Endpoint", "Message", "Stream", "Locks", "LockOrder"],
         "rule": "N in {2,3,4,8,16} goroutines each Send K in {4,16,32,64} messages (payload 0 B - 350 kB, content a function "
                 "of the message id) through one sending endpoint over net.Pipe, unix://, tcp://, tcps:// (TLS) and "
                 "pipe:// (fd passing), via the repository's Listen/DialEndPoint or a Write-recording stream; the receiving "
@@ -247,8 +247,8 @@ PROPS = {
     "C11": {
         "level": "proof",
         "race": True,
-        "extract": ["Client", "Endpoint", "Basic", "Locks"],
-        "extra_modules": ["QiVerif.Props.C11Faults", "QiVerif.Props.Locks", "QiVerif.Tie.Locks"],
+        "extract": ["Client", "Endpoint", "Basic", "Locks", "LockOrder"],
+        "extra_modules": ["QiVerif.Props.C11Faults", "QiVerif.Props.Locks", "QiVerif.Tie.Locks", "QiVerif.Props.LockOrder", "QiVerif.Tie.LockOrder"],
         "rule": "the real bus client (Call, Subscribe, OnDisconnect) on an endpoint over a harness-implemented net.Stream "
                 "whose every Write blocks until the script lets it succeed or fail and whose reader gets exactly the bytes or "
                 "the error the script feeds; random scripts (6-28 steps: calls, early replies to calls still inside Send, "
@@ -306,8 +306,8 @@ PROPS = {
     "C06": {
         "level": "proof",
         "race": True,
-        "extra_modules": ["QiVerif.Props.Locks", "QiVerif.Tie.Locks"],
-        "extract": ["Auth", "Locks"],
+        "extra_modules": ["QiVerif.Props.Locks", "QiVerif.Tie.Locks", "QiVerif.Props.LockOrder", "QiVerif.Tie.LockOrder"],
+        "extract": ["Auth", "Locks", "LockOrder"],
         "rule": "a real StandAloneServer (authenticator: dictionary / Yes / No; two probe services counting invocations) on "
                 "harness-owned in-memory connections (1-3 per round); raw frames of every message type (incl. unknown type "
                 "bytes) x service 0 / probe / unknown services x objects x actions; authenticate payloads from a grammar "
@@ -350,8 +350,8 @@ PROPS = {
     "C13": {
         "level": "proof",
         "race": True,
-        "extract": ["Signals", "Client", "Locks"],
-        "extra_modules": ["QiVerif.Props.C13Emit", "QiVerif.Props.C13Loop", "QiVerif.Tie.UpdateLoop", "QiVerif.Props.Locks", "QiVerif.Tie.Locks"],
+        "extract": ["Signals", "Client", "Locks", "LockOrder"],
+        "extra_modules": ["QiVerif.Props.C13Emit", "QiVerif.Props.C13Loop", "QiVerif.Tie.UpdateLoop", "QiVerif.Props.Locks", "QiVerif.Tie.Locks", "QiVerif.Props.LockOrder", "QiVerif.Tie.LockOrder"],
         "rule": "a real server with the generated PingPong stub (signal pong) and 1-3 real clients (bus.Client + "
                 "Proxy.SubscribeID) over in-memory connections whose client-to-server direction the script can hold and "
                 "release; random scripts of subscribe / cancel / emit / other traffic / hold / release / observe (8-26 "
@@ -375,8 +375,8 @@ PROPS = {
     "C14": {
         "level": "proof",
         "race": True,
-        "extract": ["Property", "Signals", "Locks"],
-        "extra_modules": ["QiVerif.Props.C14Events", "QiVerif.Props.C13Loop", "QiVerif.Tie.UpdateLoop", "QiVerif.Props.Locks", "QiVerif.Tie.Locks"],
+        "extract": ["Property", "Signals", "Locks", "LockOrder"],
+        "extra_modules": ["QiVerif.Props.C14Events", "QiVerif.Props.C13Loop", "QiVerif.Tie.UpdateLoop", "QiVerif.Props.Locks", "QiVerif.Tie.Locks", "QiVerif.Props.LockOrder", "QiVerif.Tie.LockOrder"],
         "rule": "two real objects on a real server — the generated Bomb stub (delay: int32, validator) and a hand-written "
                 "object behind the generic object dispatcher with an int32, a string and a float property and its own "
                 "change callback — driven through a session: setProperty by name / by id / with a boolean as name / unknown "
@@ -396,8 +396,8 @@ PROPS = {
     "C15": {
         "level": "proof",
         "race": True,
-        "extra_modules": ["QiVerif.Props.Locks", "QiVerif.Tie.Locks"],
-        "extract": ["Directory", "Locks"],
+        "extra_modules": ["QiVerif.Props.Locks", "QiVerif.Tie.Locks", "QiVerif.Props.LockOrder", "QiVerif.Tie.LockOrder"],
+        "extract": ["Directory", "Locks", "LockOrder"],
         "rule": "a real directory server; remote operations through the generated ServiceDirectory proxy (register with valid "
                 "and invalid infos — empty name / machine id, process 0, no or empty endpoint —, ready, unregister, update "
                 "with same / other name, lookup, list), local operations of the hosting server (NewService = register + "
@@ -416,8 +416,8 @@ PROPS = {
     "C12": {
         "level": "proof",
         "race": True,
-        "extract": ["Mailbox", "Signals", "Endpoint", "Queues", "Service", "Locks"],
-        "extra_modules": ["QiVerif.Props.C16Mailbox", "QiVerif.Tie.C16", "QiVerif.Props.Locks", "QiVerif.Tie.Locks"],
+        "extract": ["Mailbox", "Signals", "Endpoint", "Queues", "Service", "Locks", "LockOrder"],
+        "extra_modules": ["QiVerif.Props.C16Mailbox", "QiVerif.Tie.C16", "QiVerif.Props.Locks", "QiVerif.Tie.Locks", "QiVerif.Props.LockOrder", "QiVerif.Tie.LockOrder"],
         "rule": "per scenario a child process (4 GiB address-space ceiling) runs a directory server with a PingPong and a Bomb "
                 "service on a unix socket; a hostile authenticated client sends: valid mixed traffic; 40 repeated / "
                 "conflicting / foreign (un)subscriptions incl. the same id twice and wrong object ids; 200 raw frames of "
